@@ -28,7 +28,7 @@ def _merge_counters(results):
     return c, m
 
 
-def exploration_evidence(rule, assumptions, exhaustive_note):
+def exploration_evidence(rule, assumptions, exhaustive_note, level="exploration"):
     def f(pid, tier, results, seed):
         c, m = _merge_counters(results)
         samples = []
@@ -50,7 +50,7 @@ def exploration_evidence(rule, assumptions, exhaustive_note):
             "exhaustive": all(r.get("cases_run") == r.get("n_cases_enumerated") for r in results) and bool(results),
             "bounds": exhaustive_note,
         }
-        return {"level": "exploration", "coverage": cov, "assumptions": assumptions}
+        return {"level": level, "coverage": cov, "assumptions": assumptions}
     return f
 
 
@@ -402,7 +402,8 @@ PROPS["C04"] = {
         "one (type, state); all are non-trivial.",
         TRUST + ["the allow-list of documented panics is matched on (method, documented condition true for the arguments)"],
         "both build profiles in both tiers (fast = optimized, chk = debug assertions + overflow checks); thorough adds an "
-        "AddressSanitizer build of the same sweep. Lengths >= 2^43 and real memory exhaustion are not provoked."),
+        "AddressSanitizer build of the same sweep. Lengths >= 2^43 and real memory exhaustion are not provoked.",
+        level="fault_enumeration"),
     "vacuity": need(["documented_panics_observed", "hostile_calls_allocation_failure_abort", "public_functions_cross_checked"], answers=False),
 }
 
